@@ -13,3 +13,45 @@ def programs(binary, workdir, tier, seed):
     except (ImportError, AttributeError):
         pass
     return out
+
+
+def features(binary, workdir, tier, seed):
+    """Single-file programs of the other feature areas, from the generator specifications: closures (GenCapture),
+    identifiers (GenNames), objects (GenObj, every single operation), lists and maps (GenHeap, every single
+    operation), evaluation order (GenOrder, depth 1).  Used by C04 / C18, whose oracle is the equivalence of two
+    execution paths and needs no reference semantics."""
+    import json
+    import random
+    from . import gen, render
+    workdir = Path(workdir)
+    workdir.mkdir(parents=True, exist_ok=True)
+    rnd = random.Random(seed)
+    groups = {}
+    cap, _ = gen.run_generator("GenCapture", workdir / "g_capture", dict(), timeout=300)
+    groups["capture"] = cap
+    names, _ = gen.run_generator("GenNames", workdir / "g_names", dict(), timeout=300)
+    groups["names"] = rnd.sample(names, min(len(names), 120))
+    for mod, light, sel in (("GenObj", "GenObjLight", "GenObjSel"), ("GenHeap", "GenHeapLight", "GenHeapSel")):
+        one, _ = gen.run_generator(mod, workdir / f"g_{mod}", dict(MaxLen=1), cfg=light, timeout=900)
+        one = [c for c in one if len(c["hist"]) == 1]
+        if tier == "quick" and len(one) > 250:
+            one = rnd.sample(one, 250)
+        exp, _ = gen.expand(mod, workdir / f"x_{mod}", one, sel)
+        groups[mod.lower()] = exp
+    order, _ = gen.run_generator("GenOrder", workdir / "g_order", dict(MaxDepth=1))
+    groups["order"] = rnd.sample(order, min(len(order), 200 if tier == "quick" else 1500))
+    out = []
+    for g, cases in groups.items():
+        for k, c in enumerate(cases):
+            d = workdir / "f" / g / str(k)
+            d.mkdir(parents=True, exist_ok=True)
+            if "mods" in c["prog"]:          # a small project: every module next to the entry module
+                if any(m.get("dir") for m in c["prog"]["mods"]):
+                    continue
+                for m in c["prog"]["mods"]:
+                    (d / (m["name"] + ".ms")).write_text(render.program(json.loads(json.dumps(m["body"]))))
+                out.append(d / (c["prog"]["mods"][c["prog"]["entry"] - 1]["name"] + ".ms"))
+            else:
+                (d / "main.ms").write_text(render.program(json.loads(json.dumps(c["prog"]["body"]))))
+                out.append(d / "main.ms")
+    return out
